@@ -1,0 +1,26 @@
+//go:build verif
+
+// Contracts for the deductive verifier in /verif (comment-only file; compiled out
+// unless the build tag `verif` is set, and even then contains no executable code).
+package cluster
+
+// ---- placement (property C15) ----
+
+//@ func distributePoints
+//@   property C15
+//@   requires maxShardPointCount >= 1 && maxShardPointCount <= 4611686018427387904 && maxShardSize >= 0 && maxShardSize <= 4611686018427387904
+//@   requires forall(a, 0, len(shards), forall(b, 0, len(shards), a != b ==> shards[a].Id != shards[b].Id))
+//@   requires forall(a, 0, len(shards), shards[a].PointCount >= 0 && shards[a].Size >= 0 && shards[a].PointCount <= 4611686018427387904 && shards[a].Size <= 4611686018427387904)
+//@   callback createShardFn ensures forall(a, 0, len(shards), shards[a].Id != result0)
+//@   callback createShardFn ensures !contains(shardAssignments, result0)
+//@   ensures err == nil ==> forall(s, 0, len(final(shards)), contains(result0, final(shards)[s].Id) ==> 0 <= result0[final(shards)[s].Id][0] && result0[final(shards)[s].Id][0] < result0[final(shards)[s].Id][1] && result0[final(shards)[s].Id][1] <= len(points))
+//@   ensures err == nil ==> forall(s, 0, len(final(shards)), contains(result0, final(shards)[s].Id) ==> final(shards)[s].PointCount + int64(result0[final(shards)[s].Id][1] - result0[final(shards)[s].Id][0]) <= maxShardPointCount)
+//@   loop 1 invariant 0 <= lastPointIndex && lastPointIndex <= len(points) && 0 <= i && i <= len(shards)
+//@   loop 1 invariant forall(a, 0, len(shards), forall(b, 0, len(shards), a != b ==> shards[a].Id != shards[b].Id))
+//@   loop 1 invariant forall(a, 0, len(shards), shards[a].PointCount >= 0 && shards[a].Size >= 0 && shards[a].PointCount <= 4611686018427387904 && shards[a].Size <= 4611686018427387904)
+//@   loop 1 invariant forall(s, 0, len(shards), contains(shardAssignments, shards[s].Id) ==> s < i && 0 <= shardAssignments[shards[s].Id][0] && shardAssignments[shards[s].Id][0] < shardAssignments[shards[s].Id][1] && shardAssignments[shards[s].Id][1] <= lastPointIndex)
+//@   loop 1 invariant forall(s, 0, len(shards), contains(shardAssignments, shards[s].Id) ==> shards[s].PointCount + int64(shardAssignments[shards[s].Id][1] - shardAssignments[shards[s].Id][0]) <= maxShardPointCount)
+//@   loop 2 invariant lastPointIndex <= j && j <= len(points)
+//@   loop 2 invariant runningPointCount == shards[i].PointCount + int64(j - lastPointIndex)
+//@   loop 2 invariant j > lastPointIndex ==> runningPointCount <= maxShardPointCount && runningSize <= maxShardSize
+//@   loop 2 invariant runningSize >= 0 && runningSize <= 4611686018427387904
